@@ -21,8 +21,8 @@ def run(ctx):
     cov = {
         "states": mc["distinct"], "transitions": mc["generated"],
         "traces_validated_against_impl": meta["runs"],
-        "evaluations": meta["runs"], "distinct_nontrivial": nontriv,
-        "rule": "request kind (to/from/forced failover/worker-written) x history variant (clean, catch-up stuck forever, a "
+        "evaluations": len(rows), "runs": meta["runs"], "distinct_nontrivial": nontriv,
+        "rule": "evaluations = request rows judged (one per switch request seen) of `runs` scenario runs; request kind (to/from/forced failover/worker-written) x history variant (clean, catch-up stuck forever, a "
                 "persistently failing call in freeze / re-point / promote / writable, operator abort early/late, a second "
                 "initiator (worker; automatic failover when the master dies), light maintenance) x attempt limit 1-3 x "
                 "switchover timeout {12 s, 1 h}, 40 rounds of 1 s on the virtual clock; one row per request identity; "
